@@ -22,7 +22,7 @@ var mixC15 = Mix{Set: 24, Delete: 9, Get: 3, GetItem: 5, Exist: 2, MinMax: 4, To
 func init() {
 	register(&Prop{
 		ID: "C15", Level: "exploration",
-		Rule: "case = random history (mutations incl. overwrites and deletes, lookups, all visit kinds and iterators, Len, EvictSomeItems, Flush, re-open, snapshots, SetCollection/RemoveCollection, suspended readers, visits whose callback evicts) over 1-3 collections with ItemAlloc/ItemAddRef/ItemDecRef installed and wired to a mutex-protected monitor that follows the documented protocol (allocated items start at 1; the application drops its own reference after SetItem and releases what lookups return). Checked online: no DecRef takes a count below zero; every item returned by GetItem/MinItem/MaxItem or passed to a visitor has a positive count; after every step every item cached in a node reachable from an open handle (hook walk) has a positive count. Concurrent cases: 2-4 readers (lookups, visits, Min/Max in both value modes) next to a mutator that only evicts, on a cold file under the deterministic yield-point scheduler (switches at every file call, so two readers load the same uncached item at once and one loses the cache CAS); the store is then closed and every count must be zero. Histories include FlushRevert (collections that vanish with the reverted flush must release their items too). One scripted case runs after the process-wide node free list has been grown beyond 2^16 nodes (thorough: also 2^17). End of life: the snapshots and the store are closed in a seed-chosen order (stores abandoned by a re-open are closed too) and every count must be zero. Non-trivial = the history evicted or re-read items, deleted or overwrote some, and closed at least one snapshot or re-opened; distinct = distinct op-trace hash.",
+		Rule: "case = random history (mutations incl. overwrites and deletes, lookups, all visit kinds and iterators, Len, EvictSomeItems, Flush, re-open, snapshots, SetCollection/RemoveCollection, suspended readers, visits whose callback evicts) over 1-3 collections with ItemAlloc/ItemAddRef/ItemDecRef installed and wired to a mutex-protected monitor that follows the documented protocol (allocated items start at 1; the application drops its own reference after SetItem and releases what lookups return). Checked online: no DecRef takes a count below zero; every item returned by GetItem/MinItem/MaxItem or passed to a visitor has a positive count; after every step every item cached in a node reachable from an open handle (hook walk) has a positive count. Concurrent cases: 2-4 readers (lookups, visits, Min/Max in both value modes) next to a mutator that only evicts, on a cold file under the deterministic yield-point scheduler (switches at every file call, so two readers load the same uncached item at once and one loses the cache CAS); the store is then closed and every count must be zero. Histories include FlushRevert (collections that vanish with the reverted flush must release their items too). One scripted case (the last of its child process) runs after the process-wide node free list has been grown beyond 2^16 nodes (thorough: 2^17). End of life: the snapshots and the store are closed in a seed-chosen order (stores abandoned by a re-open are closed too) and every count must be zero. Non-trivial = the history evicted or re-read items, deleted or overwrote some, and closed at least one snapshot or re-opened; distinct = distinct op-trace hash.",
 		Assumptions: []string{
 			"the application follows the documented protocol: it releases each item returned by GetItem/MinItem/MaxItem exactly once and does not retain visitor items",
 			"items created by Collection.Set() (not through ItemAlloc) start at count 0 from the monitor's point of view",
@@ -47,7 +47,8 @@ func runC15(ctx *Ctx, idx int) Result {
 	if idx == 0 {
 		return runC15StaleRead(ctx)
 	}
-	if idx == 1 || (ctx.Thorough() && idx%997 == 1) {
+	if idx == pick(ctx.Tier, 800, 30000)+pick(ctx.Tier, 600, 20000)-1 {
+		// (the last case of its child process: the hook walks of every later case would have to copy the grown free list)
 		return runC15BigFreeList(ctx, idx, r)
 	}
 	if idx >= pick(ctx.Tier, 800, 30000) {
@@ -134,10 +135,7 @@ func runC15StaleRead(ctx *Ctx) Result {
 // (beyond 2^16 / 2^17 nodes): a memory-only store of that many items is built and closed first, then a
 // file-backed store under the reference monitor is filled, flushed, re-opened, read completely and closed.
 func runC15BigFreeList(ctx *Ctx, idx int, r *gen.R) Result {
-	fill := 70000
-	if idx != 1 {
-		fill = 140000
-	}
+	fill := pick(ctx.Tier, 70000, 140000)
 	if have := len(gkvlite.VerifFreeNodes()); have < fill {
 		ms, _ := gkvlite.NewStore(nil)
 		c := ms.SetCollection("filler", nil)
